@@ -8,6 +8,7 @@ import threading
 import time
 from concurrent.futures import ThreadPoolExecutor
 
+import common
 from common import VERIF, REPO, workdir, cargo_env, FileLock, Inconclusive, Replay
 
 KANI_DIR = os.path.join(VERIF, "kani")
@@ -37,7 +38,7 @@ def prepare():
         if os.path.exists(dst):
             shutil.rmtree(dst)
         shutil.copytree(KANI_DIR, dst, ignore=shutil.ignore_patterns("target", "Cargo.lock"))
-        shutil.copyfile(os.path.join(REPO, "Cargo.lock"), os.path.join(dst, "Cargo.lock"))
+        shutil.copyfile(common.repo_lockfile(), os.path.join(dst, "Cargo.lock"))
         ct = open(os.path.join(dst, "Cargo.toml")).read().replace('"/repo/', '"%s/' % REPO)
         open(os.path.join(dst, "Cargo.toml"), "w").write(ct)
         gen = os.path.join(dst, "src", "gen.rs")
